@@ -45,8 +45,8 @@ type Sched struct {
 	History []*Call // every call ever issued, in issue order
 	nextID  int
 	Step    int
-	Inc     int          // current provider incarnation
-	dead    map[int]bool // crashed incarnations
+	Inc     int                                // current provider incarnation
+	dead    map[int]bool                       // crashed incarnations
 	Respond func(c *Call) (interface{}, error) // computes the successful answer at completion time
 	// NoCancel lists methods whose parked calls do not return when their context is cancelled (a
 	// remote call that does not notice the cancellation promptly): they return only when completed.
